@@ -296,7 +296,7 @@ EXPR_REPS = [
 ]
 REGEX_REPS = ["/ab+c/", "/^x$/i"]
 ATTR_REPS = ["[attr]", "[ATTR_2]", "[size-px]", "[ows:colour]", "[7up]"]
-HEX_REPS = ["#ff00aa", "#F0A", "#ff00aa80", "#AABBCC"]
+HEX_REPS = ["#ff00aa", "#F0A", "#ff00aa80", "#AABBCC", "#FF00FFCC", "#AbCdEf0F", "#FADE"]
 
 
 def num_candidates(integer):
